@@ -82,19 +82,29 @@ def run_case(kind, q):
         corrs, specs = bc.do_correlations(template[np.newaxis], frame[np.newaxis], with_specs=True)
         pos = np.array(np.unravel_index(np.argmax(corrs[0]), shape))
         for us in q["upsample"]:
-            out_c = pos[np.newaxis].astype(np.int32).copy()
-            out_r = np.zeros((1, 2), np.float32)
-            try:
-                bc.evaluate_upsampling(corrspecs=specs[0], corrs=np.zeros((1, 2, 2)), peaks=np.zeros((1, 2), int),
-                                       crop_size=1, sig_shape=shape, upsample_factor=us, out_centers=out_c,
-                                       out_refineds=out_r)
-            except Exception as e:
-                msgs.append(f"evaluate_upsampling(upsample={us}) raised {type(e).__name__}: {e}")
-                continue
-            err = np.abs(out_r[0].astype(float) - true).max()
-            if err > 1.0 / us + 0.03:
-                msgs.append(f"shape {shape} shift {shift.tolist()} upsample={us}: refined {out_r[0].tolist()} true "
-                            f"{true.tolist()} error {err:.3f} > {1.0 / us + 0.03:.3f}")
+            # the same peak three times in one call (full-frame layout: one spectrum, several centres; crop layout: a stack
+            # of spectra): every entry must meet the bound, not only the first of the call
+            for layout in ("full", "stack"):
+                out_c = np.repeat(pos[np.newaxis].astype(np.int32), 3, axis=0)
+                out_r = np.zeros((3, 2), np.float32)
+                try:
+                    if layout == "full":
+                        bc.evaluate_upsampling(corrspecs=specs[0], corrs=np.zeros((3, 2, 2)), peaks=np.zeros((3, 2), int),
+                                               crop_size=1, sig_shape=shape, upsample_factor=us, out_centers=out_c,
+                                               out_refineds=out_r)
+                    else:
+                        bc.evaluate_upsampling(corrspecs=np.repeat(specs[:1], 3, axis=0), corrs=np.repeat(corrs[:1], 3, axis=0),
+                                               peaks=np.zeros((3, 2), int), crop_size=0, sig_shape=shape, upsample_factor=us,
+                                               out_centers=out_c, out_refineds=out_r)
+                except Exception as e:
+                    msgs.append(f"evaluate_upsampling(upsample={us}, {layout}) raised {type(e).__name__}: {e}")
+                    continue
+                for row in range(3):
+                    err = np.abs(out_r[row].astype(float) - true).max()
+                    if err > 1.0 / us + 0.03:
+                        msgs.append(f"shape {shape} shift {shift.tolist()} upsample={us} ({layout} layout, entry {row} of the "
+                                    f"call): refined {out_r[row].tolist()} true {true.tolist()} error {err:.3f} > {1.0 / us + 0.03:.3f}")
+                        break
     return msgs[:6]
 
 
